@@ -22,7 +22,7 @@ HEADER = "From Coq Require Import PrimFloat.\nFrom Verif Require Import Spec.Pdd
 ADMISSIBLE_KINDS = ["fresh", "fresh-shuffled-dict", "swap", "permutation", "rotation", "chain", "overlap",
                     "partial-fresh", "identity", "library-style"]
 JUDGED_KINDS = ADMISSIBLE_KINDS + ["exhaustive", "corpus"]   # (hand-written cases carry one of the admissible kinds)
-FOREIGN_KINDS = ["collapse", "capture", "onto-constant", "moves-constant", "onto-unrenamed"]
+FOREIGN_KINDS = ["collapse", "capture", "capture-and-move", "onto-constant", "moves-constant", "onto-unrenamed"]
 
 
 # ---------------------------------------------------------------------------------------------- renamings
@@ -138,6 +138,15 @@ def make_mapping(rng, w, action, kind, extra_taken=()):
         if n < 1 or not bound:
             return None
         return [[rng.choice(ps), rng.choice(sorted(bound))]]
+    if kind == "capture-and-move":
+        # one parameter takes the name of a quantified variable, every other one the name of its predecessor
+        if n < 2 or not bound:
+            return None
+        k = rng.randrange(n)
+        order = ps[k:] + ps[:k]
+        m = [[order[0], rng.choice(sorted(bound))]] + [[order[i], order[i - 1]] for i in range(1, n)]
+        rng.shuffle(m)
+        return m
     if kind == "onto-constant":
         if n < 1 or not consts:
             return None
@@ -679,6 +688,16 @@ def sequence_cases(rng, base_cases, n):
         d = dict(c)
         d.update({"more": more, "kind": "%s:%s" % (how, c["kind"]), "witness_of": None, "mirror": False,
                   "action_features": c["action_features"] + ["sequence:" + how]})
+        # a sequence that merges two parameters on its way (a chain applied twice) leaves literals with a repeated
+        # argument: no behaviour to compare, as for the single mappings of kind 'collapse'
+        names = [p for p, _ in g["params"]]
+        for step in [m] + more:
+            r = {o: nw for o, nw in step}
+            names = [r.get(p, p) for p in names]
+            if len(set(names)) < len(names):
+                d["probes"] = []
+                d["action_features"] = d["action_features"] + ["sequence-collapses"]
+                break
         out.append(d)
     return out
 
